@@ -193,7 +193,10 @@ class Line(LineData, Model):
 
         self.yh.v_str = 'u * (gh + 1j * bh)'
         self.yk.v_str = 'u * (gk + 1j * bk)'
-        self.yhk.v_str = 'u/((r+1e-8) + 1j*(x+1e-8))'
+        # the branch equations are multiplied by `u`; a status factor here would freeze the
+        # status the line had when the services were evaluated (closing a line that was
+        # initially open would leave its series admittance at zero)
+        self.yhk.v_str = '1/((r+1e-8) + 1j*(x+1e-8))'
 
         self.ghk.v_str = 're(yhk)'
         self.bhk.v_str = 'im(yhk)'
